@@ -526,8 +526,10 @@ def run(tier):
     ck.cov["tlc_runs"] = tlc_stats
     ck.cov["cases_emitted"] = ncases
     ck.cov["traces_validated_against_impl"] = counters.get("runs", 0)
-    ck.cov["evaluations"] = counters.get("slots", 0) + counters.get("slots_bysample", 0)
-    ck.cov["distinct_nontrivial"] = counters.get("slots_nonempty", 0)
+    ck.cov["evaluations"] = counters.get("runs", 0)
+    ck.cov["distinct_nontrivial"] = counters.get("dirs_with_pairs", 0)
+    ck.cov["lag_slots_compared"] = counters.get("slots", 0) + counters.get("slots_bysample", 0)
+    ck.cov["lag_slots_compared_nonempty"] = counters.get("slots_nonempty", 0)
     ck.cov["counters"] = {k: v for k, v in sorted(counters.items())}
     ck.cov["open_convention_heterotopic_cross_covariance"] = dict(
         directions_where_purist_definition_keeps_more_pairs=counters.get("flag_pur", 0),
@@ -536,7 +538,9 @@ def run(tier):
     ck.cov["rule"] = ("data sets = all subsets of lattice positions x value/NA/selection/weight assignments within the constants of "
                       "each TLC run, deterministically sub-sampled (hash of the data set, VERIF_SEED); each retained data set with "
                       "DirsPerCase direction lists of the family; expected values from TLC; executed on the real Vario in 3 sample "
-                      "orders, translated, as DbGrid (general algorithm), by-sample option, grid-specialised algorithm")
+                      "orders, translated, as DbGrid (general algorithm), by-sample option, grid-specialised algorithm. evaluations = calculations "
+                      "of the real Vario compared; distinct_nontrivial = distinct (data set, direction) pairs, not excluded for a tie, in which "
+                      "at least one pair of samples falls in a lag of the direction")
     for s in samples[:4]:
         ck.sample(s)
     ck.assumptions += [
@@ -548,13 +552,13 @@ def run(tier):
         "the by-sample estimator is undocumented: compared through the law 'same non-empty lags; hh and gg are convex combinations "
         "of the separations / pair values of the definition' and strictly at h=0",
         "Poisson variogram compared for unweighted data and simple variograms only (mean = arithmetic mean of the active defined samples)",
-        "an ordinary single-direction calculation is run before each by-sample calculation (see known finding C12-bysample-idirloc)"]
+        "generalised variograms of order 1-3 are compared on grids only (the library computes them nowhere else without a code variable)",
+        "variogram maps / clouds (VMap.cpp, VCloud.cpp), codes, dates and faults are not covered"]
 
     # vacuity
     need = ["slots_nonempty", "cmp_gen", "cmp_bys", "run:base/gen", "run:rev/gen", "run:shuf/gen", "run:tr/gen", "run:dbgrid/gen",
-            "run:grid/gen", "run:base/bys", "flag_grid", "flag_etie", "flag_pur", "dirs_with_pairs"]
-    if not counters.get("crash:general1"):      # (the library aborts on the generalised variograms: known finding)
-        need.append("cmp_general")
+            "run:grid/gen", "run:base/bys", "flag_grid", "flag_etie", "flag_pur", "flag_otie", "dirs_with_pairs", "slots_bysample"]
+    need.append("cmp_general")
     need += ["mode:" + m for c in cfgs for m in c["modes"]]
     missing = [k for k in need if counters.get(k, 0) == 0]
     if missing and not only:
